@@ -412,3 +412,187 @@ pub fn gen_sigs(files: &BTreeMap<String, syn::File>, out: &mut String) {
         }
     }
 }
+
+// ------------------------------------------------------------------ delegation bodies (T1)
+
+/// how an operand is viewed: `self`, `**self`, `x.as_slice()`, `x.as_mut_slice()`, a plain argument
+fn view(e: &syn::Expr) -> R<String> {
+    use syn::Expr;
+    match e {
+        Expr::Paren(p) => view(&p.expr),
+        Expr::Reference(r) => view(&r.expr),
+        Expr::Path(p) if p.path.get_ident().is_some() => {
+            let s = p.path.get_ident().unwrap().to_string();
+            if s == "self" {
+                Ok("VSelf".into())
+            } else {
+                Ok(format!("(VArg \"{}\")", s))
+            }
+        }
+        Expr::Unary(u) if matches!(u.op, syn::UnOp::Deref(_)) => {
+            // **x
+            if let Expr::Unary(u2) = &*u.expr {
+                if matches!(u2.op, syn::UnOp::Deref(_)) {
+                    if let Expr::Path(p) = &*u2.expr {
+                        if let Some(i) = p.path.get_ident() {
+                            return Ok(format!("(VDeref \"{}\")", i));
+                        }
+                    }
+                }
+            }
+            Err("unsupported dereference".into())
+        }
+        Expr::MethodCall(m) if m.args.is_empty() && (m.method == "as_slice" || m.method == "as_mut_slice") => match &*m.receiver {
+            Expr::Path(p) if p.path.get_ident().is_some() => Ok(format!(
+                "({} \"{}\")",
+                if m.method == "as_slice" { "VAsSlice" } else { "VAsMutSlice" },
+                p.path.get_ident().unwrap()
+            )),
+            _ => Err("unsupported receiver of as_slice".into()),
+        },
+        Expr::Call(c) => {
+            // GenericArray::as_slice(self)
+            if let Expr::Path(p) = &*c.func {
+                let s = p.path.segments.iter().map(|s| s.ident.to_string()).collect::<Vec<_>>().join("::");
+                if c.args.len() == 1 {
+                    if let Expr::Path(a) = &c.args[0] {
+                        if let Some(i) = a.path.get_ident() {
+                            if s == "GenericArray::as_slice" {
+                                return Ok(format!("(VAsSlice \"{}\")", i));
+                            }
+                            if s == "GenericArray::as_mut_slice" {
+                                return Ok(format!("(VAsMutSlice \"{}\")", i));
+                            }
+                        }
+                    }
+                }
+            }
+            Err("unsupported call operand".into())
+        }
+        _ => Err("unsupported operand".into()),
+    }
+}
+
+fn deleg(body: &syn::Block) -> R<String> {
+    use syn::{Expr, Stmt};
+    if body.stmts.len() != 1 {
+        return Err("body is not a single expression".into());
+    }
+    let e = match &body.stmts[0] {
+        Stmt::Expr(e, None) => e,
+        _ => return Err("body is not a tail expression".into()),
+    };
+    fn go(e: &Expr) -> R<String> {
+        match e {
+            Expr::Paren(p) => go(&p.expr),
+            Expr::Binary(b) => {
+                let op = match b.op {
+                    syn::BinOp::Eq(_) => "==",
+                    syn::BinOp::Ne(_) => "!=",
+                    _ => return Err("unsupported operator".into()),
+                };
+                Ok(format!("DBinOp \"{}\" {} {}", op, view(&b.left)?, view(&b.right)?))
+            }
+            Expr::Call(c) => {
+                if let Ok(v) = view(e) {
+                    return Ok(format!("DView {}", v));
+                }
+                let path = match &*c.func {
+                    Expr::Path(p) => p.path.segments.iter().map(|s| s.ident.to_string()).collect::<Vec<_>>().join("::"),
+                    _ => return Err("unsupported callee".into()),
+                };
+                if path == "Self::generate" && c.args.len() == 1 {
+                    // Self::generate(|_| T::default())
+                    if let Expr::Closure(cl) = &c.args[0] {
+                        if let Expr::Call(inner) = &*cl.body {
+                            if let Expr::Path(ip) = &*inner.func {
+                                let ips = ip.path.segments.iter().map(|s| s.ident.to_string()).collect::<Vec<_>>().join("::");
+                                if ips == "T::default" && inner.args.is_empty() {
+                                    return Ok("DGenerate \"T::default\"".into());
+                                }
+                            }
+                        }
+                    }
+                    return Err("unsupported generator closure".into());
+                }
+                let mut args = vec![];
+                for a in &c.args {
+                    args.push(view(a)?);
+                }
+                Ok(format!("DCall \"{}\" [{}]", path, args.join("; ")))
+            }
+            Expr::MethodCall(m) => {
+                if let Ok(v) = view(e) {
+                    return Ok(format!("DView {}", v));
+                }
+                // self.map(Clone::clone)
+                if m.method == "map" && m.args.len() == 1 {
+                    if let (Expr::Path(r), Expr::Path(f)) = (&*m.receiver, &m.args[0]) {
+                        let fs = f.path.segments.iter().map(|s| s.ident.to_string()).collect::<Vec<_>>().join("::");
+                        if r.path.is_ident("self") {
+                            return Ok(format!("DMap VSelf \"{}\"", fs));
+                        }
+                    }
+                }
+                // self.as_mut_slice().iter_mut().zeroize()
+                if m.method == "zeroize" && m.args.is_empty() {
+                    if let Expr::MethodCall(m2) = &*m.receiver {
+                        if m2.method == "iter_mut" && m2.args.is_empty() {
+                            return Ok(format!("DEach {} \"zeroize\"", view(&m2.receiver)?));
+                        }
+                    }
+                }
+                let mut args = vec![];
+                for a in &m.args {
+                    args.push(view(a)?);
+                }
+                Ok(format!("DMethod {} \"{}\" [{}]", view(&m.receiver)?, m.method, args.join("; ")))
+            }
+            _ => Err("unsupported body".into()),
+        }
+    }
+    go(e)
+}
+
+pub fn gen_deleg(files: &BTreeMap<String, syn::File>, out: &mut String) {
+    out.push_str("From Coq Require Import String List.\nFrom GA Require Import Deleg.\nImport ListNotations.\nLocal Open Scope string_scope.\n\n");
+    let mut rows: Vec<String> = vec![];
+    for fname in ["impls.rs", "impl_zeroize.rs", "lib.rs"] {
+        let Some(file) = files.get(fname) else { continue };
+        for it in &file.items {
+            if let Item::Impl(im) = it {
+                let Some((_, tp, _)) = &im.trait_ else { continue };
+                if self_base(&im.self_ty) != "GenericArray" || matches!(&*im.self_ty, Type::Reference(_)) {
+                    continue;
+                }
+                let seg = last_seg(tp);
+                let mut tname = seg.ident.to_string();
+                // distinguish AsRef<[T]> from AsRef<[T; N]> etc.
+                if let Some(GenericArgument::Type(t)) = seg_args(seg).first() {
+                    match t {
+                        Type::Slice(_) => tname.push_str("<[T]>"),
+                        Type::Array(_) => tname.push_str("<[T;N]>"),
+                        _ => {}
+                    }
+                }
+                let wanted = [
+                    "PartialEq", "PartialOrd", "Ord", "Hash", "Debug", "Borrow<[T]>", "BorrowMut<[T]>", "AsRef<[T]>", "AsMut<[T]>",
+                    "Clone", "Default", "Zeroize", "Deref", "DerefMut",
+                ];
+                if !wanted.contains(&tname.as_str()) {
+                    continue;
+                }
+                for ii in &im.items {
+                    if let ImplItem::Fn(f) = ii {
+                        match deleg(&f.block) {
+                            Ok(d) => rows.push(format!("(\"{}::{}\", {})", tname, f.sig.ident, d)),
+                            Err(e) => println!("ERROR GenDeleg.v {}::{}: {}", tname, f.sig.ident, e),
+                        }
+                    }
+                }
+            }
+        }
+    }
+    rows.sort();
+    writeln!(out, "(* impls.rs, impl_zeroize.rs, lib.rs :: the bodies of the trait impls for GenericArray that delegate to the slice *)\nDefinition gen_delegations : list (string * deleg) :=\n  [{}].", rows.join(";\n   ")).unwrap();
+}
